@@ -174,7 +174,9 @@ func (s *Service) parseAddress(address string) error {
 
 	switch s.protocol {
 	case "unix":
-		break
+		if s.address == "" {
+			return fmt.Errorf("Empty unix socket path")
+		}
 	case "tcp":
 		break
 
@@ -239,7 +241,9 @@ func (s *Service) Bind(ctx context.Context, address string) error {
 	}
 	s.mutex.Unlock()
 
-	s.parseAddress(address)
+	if err := s.parseAddress(address); err != nil {
+		return err
+	}
 
 	err := s.setListener(ctx)
 	if err != nil {
